@@ -13,4 +13,12 @@ def table_harnesses():
           functions=["sf_format_check"], bounds="every 32-bit format word, channel count and sample rate", **_c),
     ]
 HARNESSES += table_harnesses()
+import importlib.util, os
+def _load(n):
+    spec = importlib.util.spec_from_file_location("reg_%s_x" % n, os.path.join(os.path.dirname(os.path.abspath(__file__)), n + ".py"))
+    m = importlib.util.module_from_spec(spec); spec.loader.exec_module(m); return m
+# H1/H3: accepted by sf_format_check => the container opens for writing with all four writers and re-opens as the same
+# container and encoding (asserted inside the C04 round-trip harnesses); one configuration per container here
+HARNESSES += [h for h in _load("C04").rt_harnesses() if ".ch1.n1" in h.name and h.probe_for is None and (".sr" not in h.name or ".sr44100" in h.name)]
+
 META = {"assumptions": [], "outside": ["accepted => the container's open really succeeds and writes (H1): see DESIGN, registered separately when built"]}
